@@ -6,6 +6,7 @@
   garbage-collection channel exactly when the count reaches zero, and `gc` despawns exactly what is on the channel.
   Stated per registration call (DESIGN §8 R2).
 -/
+import Cobweb.Proofs.DeathCause
 import Cobweb.Proofs.Boot
 import Cobweb.Proofs.Kill
 import Cobweb.Proofs.ArcCount
@@ -212,6 +213,42 @@ theorem unheld_arc_has_count_zero {p : Prog} {hh : Hist} (hsig : SigOK2 hh) {s :
 theorem last_release_sends_to_collector {p : Prog} {hh : Hist} {s s' : St} (ht : tick p hh s = some s') (a : Nat)
     (ha : a < s.nextArc) (hp : 0 < s.arcRc a) (h0 : s'.arcRc a = 0) : s.arcEnt a ∈ s'.autoChan :=
   zero_sends ht a ha hp h0
+
+/-- **Nothing is despawned without a reason** (every tick of every execution, from any state): an entity that is not event
+    data named by a tracker (or by an aborting command) dies only in a tick that applies a `despawn` command naming it, whose
+    despawn work — a recursive despawn, the collector working off the auto-despawn channel, a runner dropping a system that
+    lost its storage — has reached it, that runs the tail of the one-off reactor it is, or that starts the user's direct
+    `World::despawn`. Registration, revocation, dispatch, polls, replays, clean-ups and aborts of other commands never kill a
+    reactor: with `count_is_number_of_holders` and `last_release_sends_to_collector` (an entity reaches the channel only in
+    the step that takes one of its counts to zero) this is "no premature despawn" for entities, not only for counts. -/
+theorem dies_only_for_a_reason (p : Prog) (h : Hist) {s s' : St} (ht : tick p h s = some s') (x : Nat) (ha : s.alive x = true)
+    (hd : s'.alive x = false) (h1 : x ≠ s.trkSys.cur) (h2 : x ≠ s.trkEvt.cur)
+    (h3 : ∀ sys k rest, s.stack = .abort sys k :: rest → k.data? ≠ some x) :
+    (∃ cs rest, s.stack = .batch (.despawn x :: cs) :: rest) ∨ (∃ w rest, s.stack = .despawnWork ((x, true) :: w) :: rest) ∨
+    (∃ rest, s.stack = .onceTail x :: rest) ∨ (s.stack = [] ∧ h.op s.topIdx s = some (.wDespawn x)) :=
+  tick_death p h ht x ha hd h1 h2 h3
+
+/-- Non-vacuity: a live entity 3 that is no event data, under a batch whose next command despawns it: the tick kills it,
+    and the first cause is the one that holds. -/
+example : ∃ s s' : St, tick (fun _ _ _ => none) { op := fun _ _ => none, act := fun _ _ _ => none } s = some s' ∧
+    s.alive 3 = true ∧ s'.alive 3 = false ∧ 3 ≠ s.trkSys.cur ∧ 3 ≠ s.trkEvt.cur ∧
+    s.stack = .batch [.despawn 3] :: [] := by
+  refine ⟨{ alive := fun e => e == 3, nextEnt := 4, stack := [.batch [.despawn 3]] }, _, rfl, rfl, ?_, by decide, by decide, rfl⟩
+  simp [runFrame, doBatch, applyCmd, despawn1, St.push, kill, killCanary, killStorage, killReactors, killComps, killTracker, killData, upd]
+
+/-- In particular a revocation never despawns anything by itself (the reactor goes when the collector finds it). -/
+theorem revoke_never_despawns (s : St) (sys : Nat) (trigs : List Trig) (x : Nat) (ha : s.alive x = true) :
+    (applyCmd s (.revoke sys trigs)).alive x = true := by
+  cases hx : (applyCmd s (.revoke sys trigs)).alive x with
+  | true => rfl
+  | false => rcases applyCmd_death s _ x ha hx with hc | ⟨⟨k, hc⟩, _⟩ <;> cases hc
+
+/-- ... and neither does a registration, whatever its mode and triggers. -/
+theorem register_never_despawns (s : St) (trigs : List Trig) (sys : Nat) (m : Mode) (x : Nat) (ha : s.alive x = true) :
+    (applyCmd s (.register trigs sys m)).alive x = true := by
+  cases hx : (applyCmd s (.register trigs sys m)).alive x with
+  | true => rfl
+  | false => rcases applyCmd_death s _ x ha hx with hc | ⟨⟨k, hc⟩, _⟩ <;> cases hc
 
 /-- The collector takes what is on the channel, oldest first, and despawns it if it is still alive. -/
 theorem collector_drains (s : St) (e : Nat) (es : List Nat) (h : s.autoChan = e :: es) :
